@@ -230,8 +230,8 @@ def run(prop, tier, seed, t0):
     bins, notes, failed = plan.bins_for(cfgs, ('rel', 'chk') if tier == 'thorough' else ('rel',))
     if failed:
         return plan.fail_build(prop, failed)
-    size = 480 if tier == 'quick' else 16000
-    nt = 16 if tier == 'quick' else 64
+    size = 480 if tier == 'quick' else 48000
+    nt = 16 if tier == 'quick' else 128
     tasks = plan.spread_tasks('vlib.props.c09', 'task', prop, seed, size, plan.plain(bins), ntasks=nt)
     m = core.run_tasks(tasks)
     return core.finish(prop, tier, seed, t0, m,
